@@ -147,6 +147,7 @@ func TestVerifC14(t *testing.T) {
 	}
 	save := func(c *verifc14.Case, label string) {
 		c.Want(c14Encode(t))
+		c.Kind = "writefile"
 		if err := c.Save(label, func() error { return config.write(nil) }); err != nil {
 			t.Errorf("%s/%s: config.write: %v", c.Name, label, err)
 		}
@@ -210,6 +211,7 @@ func TestVerifC14(t *testing.T) {
 		want := c14Encode(t)
 		lim := limit(len(want))
 		c.Info["limit"], c.Info["size"] = lim, len(want)
+		c.Kind = "writefile"
 		if err := c.SaveLimited(label, lim, func() error { return config.write(nil) }); err == nil {
 			c.Fail("config.write of %d bytes under a file size limit of %d reported success", len(want), lim)
 		}
@@ -226,6 +228,89 @@ func TestVerifC14(t *testing.T) {
 			c.Info["parseConfig_err"] = err.Error()
 		}
 		config.fileData = nil
+	}
+
+	// exactRules sets numbered user rules ("||n000000007.example^$client=ccc...")
+	// such that the configuration serialises to EXACTLY size bytes.
+	exactRules := func(size, ruleLen int) (rules int) {
+		rule := func(k, n int) string {
+			b := fmt.Sprintf("||n%09d.example^", k)
+			if n > len(b)+8 {
+				b += "$client=" + strings.Repeat("c", n-len(b)-8)
+			} else if n > len(b) {
+				b += strings.Repeat("c", n-len(b))
+			}
+			return b
+		}
+		config.UserRules = []string{rule(0, ruleLen)}
+		l1 := len(c14Encode(t))
+		per := ruleLen + 7 // "  - '" rule "'\n"
+		n := 1
+		if size > l1+2*per {
+			n += (size - l1 - per) / per
+		}
+		rs := make([]string, 0, n+1)
+		for k := 0; k < n; k++ {
+			rs = append(rs, rule(k, ruleLen))
+		}
+		config.UserRules = rs
+		rest := size - len(c14Encode(t))
+		switch {
+		case rest < 0 && ruleLen+rest >= 21:
+			rs[n-1] = rule(n-1, ruleLen+rest)
+		case rest >= 7+21:
+			rs = append(rs, rule(n, rest-7))
+		case rest >= 0:
+			rs[n-1] = rule(n-1, ruleLen+rest)
+		default:
+			t.Fatalf("exactRules(%d, %d): %d bytes too many", size, ruleLen, -rest)
+		}
+		config.UserRules = rs
+		if got := len(c14Encode(t)); got != size {
+			t.Fatalf("exactRules(%d, %d): the configuration serialises to %d bytes", size, ruleLen, got)
+		}
+		return len(rs)
+	}
+
+	if s.Inject != "" {
+		// ---- every fsync (resp. every rename) of the process fails: config.write
+		// must report the error and leave the file as it was (put there directly)
+		for i, present := range []bool{true, false, true} {
+			_, conf := fresh()
+			cls := []string{"home", "config-write", "failed-save", "fail-" + s.Inject}
+			if present {
+				put(conf, []byte("schema_version: 29\n# previous content\n"))
+				cls = append(cls, "dst-present")
+			} else {
+				cls = append(cls, "dst-absent")
+			}
+			if i == 2 {
+				s.TmpShared()
+				cls = append(cls, "tmp-in-tmpdir")
+			} else {
+				s.TmpInDstDir()
+				cls = append(cls, "tmp-in-dstdir")
+			}
+			config.UserRules = c14Rules(r.Fork(uint64(300+i)), 100+50000*i, 60, fmt.Sprintf("i%d", i))
+			s.Case(fmt.Sprintf("inject-%s-%d", s.Inject, i), conf, nil, cls, func(c *verifc14.Case) {
+				c.Kind = "writefile"
+				c.SaveInjected("write", func() error { return config.write(nil) })
+			})
+		}
+		// ... and the write after a schema upgrade at start-up
+		{
+			_, docs := c14OldDocs(t)
+			old := docs["tiny-v28"]
+			s.TmpInDstDir()
+			_, conf := fresh()
+			put(conf, old)
+			s.Case("inject-"+s.Inject+"-upgrade", conf, nil, []string{"home", "config-upgrade-write", "failed-save", "fail-" + s.Inject, "dst-present", "tmp-in-dstdir", "upgrade-on-start"}, func(c *verifc14.Case) {
+				config.fileData = nil
+				c.SaveInjected("parseConfig", func() error { return parseConfig() })
+				config.fileData = nil
+			})
+		}
+		return
 	}
 
 	// ---- prelude: one constructed representative per class
@@ -275,6 +360,70 @@ func TestVerifC14(t *testing.T) {
 			save(c, fmt.Sprintf("write-%d", k))
 		}
 	})
+
+	// ---- creation of the temporary file fails (no descriptor to be had: EMFILE)
+	for i, present := range []bool{true, false} {
+		_, conf := fresh()
+		cls := []string{"home", "config-write", "failed-save", "tmp-in-dstdir"}
+		if present {
+			if err := config.write(nil); err != nil {
+				t.Fatal(err)
+			}
+			cls = append(cls, "dst-present")
+		} else {
+			cls = append(cls, "dst-absent")
+		}
+		config.UserRules = c14Rules(r.Fork(uint64(250+i)), 300+4000*i, 50, fmt.Sprintf("n%d", i))
+		s.Case(fmt.Sprintf("fail-open-%d", i), conf, nil, cls, func(c *verifc14.Case) {
+			c.Kind = "writefile"
+			c.SaveNoFile("write-nofile", func() error { return config.write(nil) })
+			save(c, "write-after-failure")
+		})
+	}
+
+	// ---- exact content sizes (the configuration serialises to exactly this many
+	// bytes), replacing a small file: the file must be the whole serialisation
+	exact := []int{4095, 4096, 4097, 65535, 65536, 65537, 1600000}
+	if s.Tier == "thorough" {
+		exact = append(exact, 16<<20-1, 16<<20, 16<<20+1, 32<<20-1, 32<<20, 32<<20+1, 40<<20)
+	}
+	for _, sz := range exact {
+		_, conf := fresh()
+		if err := config.write(nil); err != nil {
+			t.Fatal(err)
+		}
+		rl := 40 + sz%13
+		if sz >= 1<<20 {
+			rl = 900 + sz%7
+		}
+		s.Case(fmt.Sprintf("exact-size-%d", sz), conf, nil, []string{"home", "config-write", "dst-present", "tmp-in-dstdir", "exact-size", fmt.Sprintf("size>=%dKiB", sz>>10)}, func(c *verifc14.Case) {
+			n := exactRules(sz, rl)
+			c.Info["user_rules"], c.Info["bytes"] = n, sz
+			save(c, "write-exact")
+			// judged from the file alone: it parses, and holds every rule from number 0 to the last
+			b, err := os.ReadFile(conf)
+			var got struct {
+				UserRules []string `yaml:"user_rules"`
+			}
+			if err == nil {
+				err = yaml.Unmarshal(b, &got)
+			}
+			bad := ""
+			if err != nil || len(b) != sz || len(got.UserRules) != n {
+				bad = fmt.Sprintf("%d bytes, %d user rules (%v)", len(b), len(got.UserRules), err)
+			} else {
+				for k, ru := range got.UserRules {
+					if !strings.HasPrefix(ru, fmt.Sprintf("||n%09d.example^", k)) {
+						bad = fmt.Sprintf("user rule %d is %.40q", k, ru)
+						break
+					}
+				}
+			}
+			if bad != "" {
+				c.Fail("config.write of %d user rules (%d bytes) reported success but the file holds neither the previous nor the complete new version: %s", n, sz, bad)
+			}
+		})
+	}
 
 	// ---- sizes
 	sizes := []int{64 << 10, 1 << 20}
